@@ -66,13 +66,14 @@ func c11View(n *cluster.SNode, m *memRig, ts uint64) (view string) {
 	}
 	// the durable membership history as the store reports it for that instant (what the RPC and the
 	// custodian validation read), latest record per signer and full state sequence
-	b.WriteString("|store:")
-	for _, sn := range n.Store.ReadAllNodes(ts, false) {
-		fmt.Fprintf(&b, "%s:%s:%d,", sn.Signer.String()[:8], sn.State, sn.Timestamp)
-	}
-	b.WriteString("|states:")
-	for _, sn := range n.Store.ReadAllNodes(ts, true) {
-		fmt.Fprintf(&b, "%s:%s:%d,", sn.Signer.String()[:8], sn.State, sn.Timestamp)
+	// (the store returns the latest-record list in no particular order; the kernel sorts it itself)
+	for _, withState := range []bool{false, true} {
+		var items []string
+		for _, sn := range n.Store.ReadAllNodes(ts, withState) {
+			items = append(items, fmt.Sprintf("%s:%s:%d", sn.Signer.String()[:8], sn.State, sn.Timestamp))
+		}
+		sort.Strings(items)
+		fmt.Fprintf(&b, "|store%v:%s", withState, strings.Join(items, ","))
 	}
 	return b.String()
 }
